@@ -34,6 +34,10 @@ type Search struct {
 	Stop func(in ssa.Instruction) bool
 	// Target reports the instructions the query tries to reach.
 	Target func(in ssa.Instruction) bool
+	// TargetEdge / StopEdge: as Target / Stop, for control-flow edges (e.g. the edge on which a
+	// phi takes a particular value).
+	TargetEdge func(e Edge) bool
+	StopEdge   func(e Edge) bool
 	// Assume holds initial facts (condition-class key or phi) for the start state.
 	Assume map[string]string
 	// NoFacts disables path sensitivity.
@@ -579,6 +583,12 @@ func (s *Search) Run(start ssa.Instruction) (bool, []string) {
 			if cur.armed && s.Cut != nil && s.Cut(e) {
 				continue
 			}
+			if cur.armed && s.TargetEdge != nil && s.TargetEdge(e) {
+				return true, s.witness(cur, nil)
+			}
+			if cur.armed && s.StopEdge != nil && s.StopEdge(e) {
+				continue
+			}
 			armed := cur.armed || (s.Via != nil && s.Via(e))
 			facts := cur.facts
 			if cond != nil && !s.NoFacts {
@@ -762,10 +772,19 @@ func FindGate(p *Prog, fn *ssa.Function, name string, m func(c Cmp, isCmp bool, 
 					switch bo.Op {
 					case token.EQL, token.NEQ, token.LSS, token.LEQ, token.GTR, token.GEQ:
 						c = Cmp{Op: bo.Op, X: bo.X, Y: bo.Y, Instr: bo}
+						if _, xk := c.X.(*ssa.Const); xk {
+							if _, yk := c.Y.(*ssa.Const); !yk {
+								c = c.Mirror() // a constant operand stands on the right
+							}
+						}
 						isCmp = true
 					}
 				}
 				match, acceptHolds := m(c, isCmp, a.V)
+				if !match && isCmp && (c.Op == token.EQL || c.Op == token.NEQ) {
+					// == and != are symmetric: the operands may be written in either order
+					match, acceptHolds = m(c.Mirror(), isCmp, a.V)
+				}
 				if !match || a.Holds != acceptHolds {
 					continue
 				}
